@@ -52,14 +52,24 @@ def _in_box(p, q, leeway, axis_leeway):
 
 
 def box_int(x0: int, y0: int, z0: int, x1: int, y1: int, z1: int, qx: int, qy: int, qz: int,
-            lw: int, lx: int, ly: int, lz: int) -> bool:
+            lw: int, lx: int, ly: int, lz: int, w: int, h: int) -> bool:
     """
+    pre: w >= 1 and h >= 1
     post: _
     """
     hx.begin()
     kind, nag, axes = hx.P['world'], hx.P['n'], hx.P['axes']
     m = Model(logger=NULL_LOGGER)
-    env = _world(m, kind, 0, 0, 0, False)
+    env = _world(m, kind, w, h if 'y' in axes else 0, 0, False)
+    # agents stand at legal positions of their world (I8): anywhere in a zero-extent world, 0..extent in a continuous
+    # world, 0..extent-1 in a grid world
+    if kind != 'free':
+        off = env._index_offset
+        for (px, py) in ((x0, y0), (x1, y1)):
+            if not (0 <= px <= env.width - off):
+                return hx.end(True)
+            if env.height > 0 and 'y' in axes and not (0 <= py <= env.height - off):
+                return hx.end(True)
     # `axes` selects which coordinates are symbolic (the others are 0 and the query matches them): splits the work
     if 'y' not in axes:
         y0 = y1 = qy = ly = 0
@@ -173,7 +183,8 @@ ASSUMPTIONS = ["agents are written directly at arbitrary integer positions of a 
 
 def obligations(tier):
     enc = (SpaceWorld.get_agents_at,)
-    parts = [{"world": "free", "n": 1, "axes": "xyz"}, {"world": "free", "n": 2, "axes": "x"}, {"world": "grid", "n": 1, "axes": "xy"}]
+    parts = [{"world": "free", "n": 1, "axes": "xyz"}, {"world": "free", "n": 2, "axes": "x"}, {"world": "grid", "n": 1, "axes": "xy"},
+             {"world": "space", "n": 1, "axes": "xy"}]
     parts += [{"world": "free", "n": 3, "axes": "x", "third": t} for t in ([0, 0, 0], [5, 0, 0], [-3, 0, 0], [5, 1, 0])]
     if tier != "quick":
         parts += [{"world": "free", "n": 2, "axes": "xy"}, {"world": "grid", "n": 2, "axes": "xy"}]
